@@ -1,0 +1,20 @@
+//go:build verif
+
+package transport_quic
+
+import "sort"
+
+// VerifDialerKeys returns the address strings that currently have an entry in
+// the dialers table.
+//
+// Only built with the verif tag: read-only accessor for the verification harness.
+func (t *Transport) VerifDialerKeys() []string {
+	t.mtx.Lock()
+	keys := make([]string, 0, len(t.dialers))
+	for k := range t.dialers {
+		keys = append(keys, k)
+	}
+	t.mtx.Unlock()
+	sort.Strings(keys)
+	return keys
+}
